@@ -220,7 +220,7 @@ theorem shiftFlat_eq_subst' {data old new : List Int} {dmin nmin dmax : Int}
     (hdmax : maximum? data = some dmax)
     (hlen : old.length = new.length)
     (hold : ∀ o ∈ old, min dmin nmin ≤ o ∧ o ≤ dmax)
-    (h32 : ∀ x, x ∈ data ∨ x ∈ new → x - min dmin nmin < 2147483648) :
+    (h32 : ∀ x ∈ data ++ new, x - min dmin nmin < 2147483648) :
     shiftFlat data old new = .ok (data.map (subst old new)) := by
   have hdmin' := minimum?_spec hdmin
   have hnmin' := minimum?_spec hnmin
@@ -243,8 +243,8 @@ theorem shiftFlat_eq_subst' {data old new : List Int} {dmin nmin dmax : Int}
       show wrap32 (subst old new x - min dmin nmin) + min dmin nmin = subst old new x
       have hb : min dmin nmin ≤ subst old new x ∧ subst old new x - min dmin nmin < 2147483648 := by
         rcases subst_eq_or_mem old new x with h | h
-        · rw [h]; exact ⟨hx0, h32 x (Or.inl hx)⟩
-        · refine ⟨?_, h32 _ (Or.inr h)⟩
+        · rw [h]; exact ⟨hx0, h32 x (List.mem_append_left _ hx)⟩
+        · refine ⟨?_, h32 _ (List.mem_append_right _ h)⟩
           have := hnmin'.2 _ h; omega
       rw [wrap32_of_range (by omega) hb.2]; omega
     · simp only [List.length_map, List.length_range]; omega
@@ -264,9 +264,9 @@ theorem shiftFlat_eq_subst' {data old new : List Int} {dmin nmin dmax : Int}
 than `2^31` (so the `int32` cast is harmless), the result is `data.map (subst old new)`. -/
 theorem shiftFlat_eq_subst {data old new : List Int} {lo hi : Int}
     (hdata : data ≠ []) (hnew : new ≠ []) (hlen : old.length = new.length)
-    (hlow : ∀ o ∈ old, ∃ y, (y ∈ data ∨ y ∈ new) ∧ y ≤ o)
+    (hlow : ∀ o ∈ old, ∃ y ∈ data ++ new, y ≤ o)
     (hhigh : ∀ o ∈ old, ∃ y ∈ data, o ≤ y)
-    (hwin : ∀ x, x ∈ data ∨ x ∈ new → lo ≤ x ∧ x ≤ hi) (hrange : hi - lo < 2147483648) :
+    (hwin : ∀ x ∈ data ++ new, lo ≤ x ∧ x ≤ hi) (hrange : hi - lo < 2147483648) :
     shiftFlat data old new = .ok (data.map (subst old new)) := by
   obtain ⟨dmin, hdmin⟩ := minimum?_isSome hdata
   obtain ⟨nmin, hnmin⟩ := minimum?_isSome hnew
@@ -279,14 +279,20 @@ theorem shiftFlat_eq_subst {data old new : List Int} {lo hi : Int}
     obtain ⟨y, hy, hyo⟩ := hlow o ho
     obtain ⟨z, hz, hoz⟩ := hhigh o ho
     have := hdmax'.2 z hz
-    rcases hy with hy | hy
+    rcases List.mem_append.mp hy with hy | hy
     · have := hdmin'.2 y hy; omega
     · have := hnmin'.2 y hy; omega
   · intro x hx
     have h1 := (hwin x hx).2
-    have h2 := (hwin dmin (Or.inl hdmin'.1)).1
-    have h3 := (hwin nmin (Or.inr hnmin'.1)).1
+    have h2 := (hwin dmin (List.mem_append_left _ hdmin'.1)).1
+    have h3 := (hwin nmin (List.mem_append_right _ hnmin'.1)).1
     omega
+
+/-- non-vacuity: the hypotheses of `shiftFlat_eq_subst` hold on a concrete relabelling -/
+example : shiftFlat [5, 7, 9, 7] [5, 9] [6, 5] = .ok ([5, 7, 9, 7].map (subst [5, 9] [6, 5])) :=
+  shiftFlat_eq_subst (lo := 5) (hi := 9) (by decide) (by decide) (by decide) (by decide) (by decide)
+    (by decide) (by decide)
+example : [5, 7, 9, 7].map (subst [5, 9] [6, 5]) = [6, 7, 5, 7] := by decide
 
 /-! ### `subst` characterisation -/
 
@@ -508,11 +514,11 @@ theorem shiftFlat_states_eq_rank {ts : Trajs} {lo hi : Int} (hw : LabelWindow ts
     simp [arange]
   · simpa [arange] using hss
   · simp [arange]
-  · intro o ho; exact ⟨o, Or.inl (mem_states.mp ho), Int.le_refl _⟩
+  · intro o ho; exact ⟨o, List.mem_append_left _ (mem_states.mp ho), Int.le_refl _⟩
   · intro o ho; exact ⟨o, mem_states.mp ho, Int.le_refl _⟩
   · intro x hx
     have := hw.lo_nonpos
-    rcases hx with hx | hx
+    rcases List.mem_append.mp hx with hx | hx
     · have := hw.mem x hx; omega
     · have hx := mem_arange.mp hx
       have := rank_le_of_window hw (k := x.toNat) (by omega)
@@ -603,11 +609,11 @@ theorem shiftFlat_rank_eq_label {ts : Trajs} {lo hi : Int} (hw : LabelWindow ts 
     rwa [Int.toNat_of_nonneg ho.1] at this
   apply shiftFlat_eq_subst (lo := lo) (hi := hi - lo) hdata hss
   · simp [arange]
-  · intro o ho; exact ⟨o, Or.inl (hmem o ho), Int.le_refl _⟩
+  · intro o ho; exact ⟨o, List.mem_append_left _ (hmem o ho), Int.le_refl _⟩
   · intro o ho; exact ⟨o, hmem o ho, Int.le_refl _⟩
   · intro x hx
     have := hw.lo_nonpos
-    rcases hx with hx | hx
+    rcases List.mem_append.mp hx with hx | hx
     · obtain ⟨y, hy, rfl⟩ := mem_rankTrajs_flatten.mp hx
       have := rank_le_of_window hw (rank_lt (mem_states.mpr hy))
       omega
